@@ -5,8 +5,8 @@
 # and copy patch.diff, the demonstration and a meta.json into /verif/seeded/<Cxx>/.
 set -u
 id=${1:?id}
-wt=/tmp/seed-$id
-out=/verif/seeded/$id
+wt=/tmp/${SEEDPFX:-seed}-$id
+out=/verif/seeded/$id${SEEDSFX:-}
 log=$(mktemp /tmp/confirm-$id.XXXXXX)
 goenv() { env -u GOSUMDB -u GOPROXY -u GOTOOLCHAIN GOFLAGS=-mod=mod "$@"; }
 cd "$wt" || exit 2
@@ -50,7 +50,7 @@ if [ "$verdict" = CONFIRMED ] || [ "${KEEP_ANYWAY:-}" = 1 ]; then
   python3 - "$id" "$demodir" "$verdict" "$suite_rc" "$with_rc" "$without_rc" > "$out/meta.json" <<'EOF'
 import json, sys, re
 id, demodir, verdict, suite, w, wo = sys.argv[1:7]
-notes = open(f"/tmp/seed-{id}/SEED/NOTES.md").read() if True else ""
+notes = open(f"/tmp/"+__import__("os").environ.get("SEEDPFX","seed")+f"-{id}/SEED/NOTES.md").read() if True else ""
 json.dump({
   "property": id,
   "origin": "written by a sub-agent that was given only the property text and a scratch worktree of /repo",
